@@ -1287,7 +1287,7 @@ def it_elem(E, st, it, k, depth=0, serial=None):
     """Produce (by continuation) the symbolic element an iterator term yields; runs adaptor closures."""
     if isinstance(it, tuple) and it[0] == 'r':
         inner = E.read(st, it[1])
-        if isinstance(inner, tuple) and inner[0] == 'it':
+        if isinstance(inner, tuple) and inner[0] in ('it', 'call', 'p', 'f', 'd', 'agg'):
             it = inner
     if isinstance(it, tuple) and it[0] == 'it' and depth < 8:
         kind, inner, extra = it[1], it[2], it[3]
@@ -1336,7 +1336,7 @@ def _two_way(E, st, it, k_empty, k_elem):
     """empty iteration | one symbolic iteration"""
     if isinstance(it, tuple) and it[0] == 'r':
         inner = E.read(st, it[1])
-        if isinstance(inner, tuple) and inner[0] == 'it':
+        if isinstance(inner, tuple) and inner[0] in ('it', 'call', 'p', 'f', 'd', 'agg'):
             it = inner
     s2 = st.clone()
     s2.conds.append((('nonempty', it), False))
